@@ -322,7 +322,8 @@ int SimulateTms1000::dump_ram(int start, int end)
 
 int SimulateTms1000::execute(uint8_t opcode, uint8_t &update_s)
 {
-  const int xy = reg_x << 4 | reg_y;
+  // X is two bits and Y four: the RAM has 64 nibbles.
+  const int xy = ((reg_x & 0x3) << 4) | (reg_y & 0xf);
 
   if ((opcode & 0xfc) == 0x3c)
   {
